@@ -93,17 +93,17 @@ def run_probe(name: str, kind: str, opset: int, seed: int):
     except Exception as e:  # noqa: BLE001
         return (f"build-raises:{type(e).__name__}", f"{name}: the caller's list was mutated ({kind}) after construction: spox.build raised {type(e).__name__}: {str(e)[:160]}")
     got, err = None, None
-    try:
-        import onnxruntime as ort
+    from harness import lib_prog as L  # onnxruntime lives in a child process there (native crashes = per-case results)
 
-        so = ort.SessionOptions()
-        so.graph_optimization_level = ort.GraphOptimizationLevel.ORT_DISABLE_ALL
-        so.log_severity_level = 4
-        so.intra_op_num_threads = 1
-        sess = ort.InferenceSession(model.SerializeToString(), so, providers=["CPUExecutionProvider"])
-        got = sess.run(None, feeds)[0]
-    except Exception as e:  # noqa: BLE001
-        err = f"{type(e).__name__}: {str(e)[:160]}"
+    st, sess = L.ort_session(model)
+    if st == "ok":
+        st, outs = L.ort_run(sess, feeds)
+        if st == "ok":
+            got = outs[0]
+        else:
+            err = str(outs)[:200]
+    else:
+        err = str(sess)[:200]
     if got is None:
         try:
             import onnx.reference
